@@ -291,3 +291,108 @@ def build_dispute(pid, tier):
                             bounds='%d vesting entries; CUTS: deadline/partition/sector loading, proof verification (arbitrary verdict), record_faults, penalty/reward formulas (arbitrary amounts >= 0); no worker-key change pending; sends to the power / burnt-funds actors succeed, the reward transfer may fail' % n,
                             max_paths=400000, wall_s=400 if tier == 'quick' else 1500))
     return O
+
+
+# ---- process_early_terminations: every early-terminated sector pays its termination fee, its pledge is released -----------
+# CUTS (declared): State::pop_early_terminations -> one queue entry (epoch, n sector numbers) or nothing, arbitrary
+# `more`; Sectors::load / load_sectors -> n arbitrary sector infos whose pledges are covered by the pledge total;
+# qa_power_for_sector, pledge_penalty_for_continued_fault, pledge_penalty_for_termination -> arbitrary amounts >= 0 (the
+# termination-fee bounds are decided in C15's formula obligations).
+
+def run_pet(n, nvest=0):
+    def run(E):
+        rt, rtref = new_rt(E)
+        pre = mk_miner_state(E, nvest)
+        rt.state = pre['st']
+        E.ctx.assume(rt.balance >= pre['pcd'] + pre['lf'] + pre['ip'])
+        E.ctx.assume(z3.And(rt.epoch >= 0, rt.epoch < 2**40))
+        E.ctx.assume(z3.Not(C13.bz(C13.view(E, pre['info'])['pw_some'])))
+        env = E.ctx.env
+        env['balance0'] = rt.balance
+        SO = Fields('actors/miner/src/types.rs', 'SectorOnChainInfo')
+        TR = Fields('actors/miner/src/termination.rs', 'TerminationResult')
+        nums = [E.materialize('u64', 'term%d.number' % i).v for i in range(n)]
+        secs = []
+        pledges = []
+        for i in range(n):
+            p = z3.Int('term%d.initial_pledge' % i)
+            E.ctx.assume(p >= 0)
+            pledges.append(p)
+            act = E.materialize('i64', 'term%d.activation' % i)
+            E.ctx.assume(z3.And(act.v >= 0, act.v < 2**40))
+            secs.append(StructV('types::SectorOnChainInfo', {SO['sector_number']: IntV(nums[i], 'u64'), SO['initial_pledge']: BigV(p), SO['activation']: act}, lazy='term%d' % i))
+        E.ctx.assume(pre['ip'] >= (sum(pledges) if pledges else 0))       # C03 invariant: pledge total covers the live sectors' pledges
+        more = E.ctx.fresh_bool('more_early_terminations') if False else z3.Bool('more_early_terminations')
+        ep = E.materialize('i64', 'termination_epoch')
+        E.ctx.assume(z3.And(ep.v >= 0, ep.v < 2**40))
+
+        def cut_pop(E2, c):
+            d = models_std.DictM('BTreeMap')
+            if n:
+                d.items.append([('int', ep.v), ep, Cell(models_fvm.BitSetV(nums), 'sectors')])
+            res = StructV('termination::TerminationResult', {TR['sectors']: ObjV(d), TR['partitions_processed']: IntV(1 if n else 0, 'u64'), TR['sectors_processed']: IntV(n, 'u64')})
+            return ok(StructV('tuple', {0: res, 1: more}), c.dest_ty)
+        E.cuts['State::pop_early_terminations'] = cut_pop
+        E.cuts['Sectors::load'] = lambda E2, c: ok(LazyV('sectors', 'sectors::Sectors'), c.dest_ty)
+        E.cuts['Sectors::load_sectors'] = lambda E2, c: ok(VecV(list(secs), 'Vec<SectorOnChainInfo>'), c.dest_ty)
+        fees = env.setdefault('fees', [])
+
+        def cut_fee(E2, c):
+            v = z3.Int('termination_fee%d' % len(fees))
+            E2.ctx.assume(v >= 0)
+            fees.append(v)
+            return BigV(v)
+        for pre_ in ('', 'monies::', 'policy::'):
+            E.cuts[pre_ + 'pledge_penalty_for_termination'] = cut_fee
+            E.cuts[pre_ + 'pledge_penalty_for_continued_fault'] = lambda E2, c: BigV(z3.Int(E2.ctx.fresh_name('fault_fee')))
+            E.cuts[pre_ + 'qa_power_for_sector'] = lambda E2, c: BigV(z3.Int(E2.ctx.fresh_name('sector_power')))
+        from .miner_money import install_bib_cut
+        install_bib_cut(E)
+        rt.send_hook = lambda E2, rt2, rec, nm: ('ok', None)
+        env.update(dict(n=n, pledges=pledges, more=more))
+        fe = 'fil_actors_runtime::reward::FilterEstimate'
+        fn = find_fn(E, MINER, 'process_early_terminations')
+        return E.run_function(fn, [rtref, RefV(Cell(LazyV('rew_est', fe), 'r'), ()), RefV(Cell(LazyV('pow_est', fe), 'p'), ())]), rt
+    return run
+
+
+def props_pet(E, res):
+    from .miner_money import bib_prop
+    env = res.ctx.env
+    rt, pre = env['rt'], env['pre']
+    ctx = res.ctx
+    if res.kind != 'return':
+        return [tagged('ALL', 'no panic (%s)' % str(res.info)[:60], False)]
+    if is_err(res.value):
+        return [bib_prop(res)]
+    fees = env.get('fees', [])
+    total_fee = sum(fees) if fees else 0
+    total_pledge = sum(env['pledges']) if env['pledges'] else 0
+    led = ledgers(E, rt.state)
+    burns, pledge, others = classify_sends(rt, ctx)
+    burnt = sum(s.value for s in burns) if burns else 0
+    P = [tagged('C15', 'every early-terminated sector is charged one termination fee', len(fees) == env['n']),
+         tagged('C15', 'the termination fees are burnt at once or recorded as fee debt', burnt + led['fd'] == pre['fd'] + total_fee),
+         tagged('C15,C01', 'fee debt never negative', led['fd'] >= 0),
+         tagged('C03', "the initial-pledge total falls by exactly the terminated sectors' pledges", led['ip'] == pre['ip'] - total_pledge),
+         tagged('C03,C14', 'locked-funds total = sum of the vesting schedule', led['lf'] == table_sum(led['vents'])),
+         tagged('C01', 'miner stays solvent', solvency(rt, led))]
+    sent = sum(pledge_delta_of(E, s) for s in pledge) if pledge else 0
+    P.append(tagged('C03', 'pledge notifications add up to the change of pledge + vesting funds', sent == (led['ip'] + led['lf']) - (pre['ip'] + pre['lf'])))
+    for s in others:
+        P.append(tagged('C01', 'only the burn carries value', s.value == 0))
+    r = res.value.fields[('Ok', 0)]
+    rv = r if is_sym(r) else z3.BoolVal(bool(r))
+    P.append(tagged('C05', 'the caller learns exactly whether early terminations remain queued', rv == env['more']))
+    return P
+
+
+def build_pet(pid, tier):
+    wrap = lambda f: (lambda E, res: for_property(pid, f(E, res)))
+    O = []
+    for (n, nv) in ([(0, 0), (1, 0), (2, 0)] if tier == 'quick' else [(0, 0), (1, 0), (2, 0), (1, 1), (2, 1), (3, 0)]):
+        O.append(Obligation('miner.process_early_terminations[sectors=%d, vesting entries=%d]' % (n, nv), run_pet(n, nv), wrap(props_pet),
+                            descr='each early-terminated sector pays one termination fee (burnt or fee debt); the pledge total falls by exactly their pledges; pledge notification exact; solvent; `more` passed through',
+                            bounds='%d terminated sector(s) in one queue entry, %d vesting entries; CUTS: pop_early_terminations, sector loading, fee formulas (contracts in obligations/miner_cron.py); sends succeed' % (n, nv),
+                            max_paths=200000, wall_s=300 if tier == 'quick' else 1200))
+    return O
